@@ -126,7 +126,8 @@ def check(ctx):
     out = core.run_driver(lines) if lines else []
     pos = 0
     for (c, r, m), k in zip(triples, spans):
-        judge(ctx, c, r, m, out[pos:pos + k])
+        with ctx.guard(c):
+            judge(ctx, c, r, m, out[pos:pos + k])
         pos += k
     # single-element calls do not count
     from generatorpipeline import pipeline
@@ -145,7 +146,8 @@ def replay(ctx, data):
     case['pre_model'] = tuple(case['pre_expected'])
     for c, r, m in c01.execute([case], workers=1):
         il = core.run_driver(['pipe.info %d %d' % (rd['processed'], rd['yielded']) for rd in r['reads']]) if r['reads'] else []
-        judge(ctx, c, r, m, il)
+        with ctx.guard(c):
+            judge(ctx, c, r, m, il)
 
 
 if __name__ == '__main__':
